@@ -62,3 +62,50 @@ package dagprocessor
 //@   ensures  [over] old(f.eventsSemaphore.processing.Num < 1 || f.eventsSemaphore.processing.Size < e.Size()) ==> f.eventsSemaphore.processing.Num == 0 && f.eventsSemaphore.processing.Size == 0
 //@   ensures  [forward] released != nil ==> nOrigRel == old(nOrigRel) + 1 && gOrigRelEv == e && gOrigRelErr == err
 //@   ensures  [none] released == nil ==> nOrigRel == old(nOrigRel)
+//@
+//@ // ---- Enqueue: the checker task (Enqueue$1) reports each event's parentless check through checkedC, the inserter
+//@ // task (Enqueue$2) reassembles the results. Channel operations are abstracted (sends are not tracked, a received
+//@ // value is arbitrary within the channel invariant); what travels through checkedC is a non-nil record holding a
+//@ // non-nil event of non-negative size and a position inside the batch (the channel was made with room for
+//@ // exactly one result per event of the batch)
+//@ chaninv (*Processor).Enqueue.checkedC(v): v != nil && v.e != nil && v.e.Size() >= 0 && v.pos < cap(ch)
+//@
+//@ // the callback handed to CheckParentless: captures one event of the batch and its position
+//@ func (*Processor).Enqueue$1$1
+//@   captures requires event != nil && event.Size() >= 0 && pos < cap(checkedC)
+//@   ensures  true
+//@
+//@ funcfield EventCallback.CheckParentless
+//@   ensures true
+//@
+//@ // the checker task: every callback it creates satisfies the capture conditions above
+//@ // (assumed at its entry, it is run by the worker goroutine: the batch holds non-nil events of non-negative size)
+//@ func (*Processor).Enqueue$1
+//@   captures requires cap(checkedC) == len(events)
+//@   requires f != nil && f.callback.Event.CheckParentless != nil && forall(i, 0, len(events), events[i] != nil && events[i].Size() >= 0)
+//@   loop 1 invariant 0 <= _k && _k <= len(events)
+//@
+//@ funcfield (*Processor).Enqueue$2.done
+//@   ensures true
+//@ funcfield (*Processor).Enqueue$2.notifyAnnounces
+//@   ensures true
+//@
+//@ // the inserter task. Batch order: in an ordered batch the k-th result handed to process() (and so to the ordering
+//@ // buffer) is the one with position k, whatever the order in which the check results arrive -- stated as the
+//@ // call-site condition of the ordered process() call. A result is looked at only at a position inside the batch.
+//@ func (*Processor).Enqueue$2
+//@   captures requires eventsLen >= 0 && cap(checkedC) == eventsLen
+//@   requires f != nil && f.callback.Event.Released != nil && f.callback.HighestLamport != nil && bufinv(f.buffer)
+//@   modifies nRel, gRelEv, gRelPeer, gRelErr, gHL, nPush, gPushEv, all(dagordering.event).released, all(dagordering.event).err, gConn[*], gProcessed[*], gRelCnt[*], f.buffer.incompletes.lru.items[*], f.buffer.incompletes.lru.weight, lel[f.buffer.incompletes.lru.evictList], llen[f.buffer.incompletes.lru.evictList], lidx[*], lown[*], nEvict, gEvictKey, gEvictVal, all(simplewlru.entry).value, all(simplewlru.entry).weight
+//@   ensures  bufinv(f.buffer)
+//@   at call dagprocessor.Processor).process[1] assumes f.buffer.incompletes.lru.weight + res.e.Size() <= 18446744073709551615
+//@   at call dagprocessor.Processor).process[2] assumes f.buffer.incompletes.lru.weight + orderedResults[i].e.Size() <= 18446744073709551615
+//@   at call dagprocessor.Processor).process[2] requires [batchorder] orderedResults[i].pos == processed
+//@   loop 1 modifies nRel, gRelEv, gRelPeer, gRelErr, gHL, nPush, gPushEv, all(dagordering.event).released, all(dagordering.event).err, gConn[*], gProcessed[*], gRelCnt[*], f.buffer.incompletes.lru.items[*], f.buffer.incompletes.lru.weight, lel[f.buffer.incompletes.lru.evictList], llen[f.buffer.incompletes.lru.evictList], lidx[*], lown[*], nEvict, gEvictKey, gEvictVal, all(simplewlru.entry).value, all(simplewlru.entry).weight, orderedResults[*], toRequest[*]
+//@   loop 1 invariant arrof(toRequest) == arrof(atentry(toRequest)) || arrfresh(toRequest, _loopalloc)
+//@   loop 1 invariant bufinv(f.buffer) && 0 <= processed && processed <= eventsLen
+//@   loop 1 invariant ordered ==> len(orderedResults) == eventsLen && forall(j, 0, len(orderedResults), orderedResults[j] != nil ==> orderedResults[j].pos == j && orderedResults[j].e != nil && orderedResults[j].e.Size() >= 0)
+//@   loop 2 modifies nRel, gRelEv, gRelPeer, gRelErr, gHL, nPush, gPushEv, all(dagordering.event).released, all(dagordering.event).err, gConn[*], gProcessed[*], gRelCnt[*], f.buffer.incompletes.lru.items[*], f.buffer.incompletes.lru.weight, lel[f.buffer.incompletes.lru.evictList], llen[f.buffer.incompletes.lru.evictList], lidx[*], lown[*], nEvict, gEvictKey, gEvictVal, all(simplewlru.entry).value, all(simplewlru.entry).weight, orderedResults[*], toRequest[*]
+//@   loop 2 invariant arrof(toRequest) == arrof(atentry(toRequest)) || arrfresh(toRequest, _loopalloc)
+//@   loop 2 invariant bufinv(f.buffer) && 0 <= processed && processed <= eventsLen && i == processed && ordered
+//@   loop 2 invariant len(orderedResults) == eventsLen && forall(j, 0, len(orderedResults), orderedResults[j] != nil ==> orderedResults[j].pos == j && orderedResults[j].e != nil && orderedResults[j].e.Size() >= 0)
